@@ -19,13 +19,34 @@ func coqFields(fs []field) string {
 	return hk.CoqList(xs)
 }
 
-func (x *exch) coqObs() string {
+func (x *exch) coqObsCore() string {
 	s := &x.s
 	ref := x.expectedBody()
 	if s.NoResp {
-		return "true 0%Z [] 0%Z [] {| x_err := true; x_bytes := None; x_stream := Lit []; x_stream_end := None; x_again := Lit []; x_again_ok := true; x_out := Lit [] |} []"
+		return "true 0%Z [] 0%Z [] {| x_err := true; x_bytes := None; x_stream := Lit []; x_stream_end := None; x_again := Lit []; x_again_ok := true; x_out := Lit [] |}"
 	}
-	return fmt.Sprintf("false %s %s %s %s %s %s", hk.CoqZ(int64(s.Code)), coqHmap(s.Header), hk.CoqZ(s.CL), coqHmap(s.Trailer), x.coqAPI(ref), coqInterims(s.Interims))
+	return fmt.Sprintf("false %s %s %s %s %s", hk.CoqZ(int64(s.Code)), coqHmap(s.Header), hk.CoqZ(s.CL), coqHmap(s.Trailer), x.coqAPI(ref))
+}
+
+func (x *exch) coqObs() string {
+	if x.s.NoResp {
+		return x.coqObsCore() + " []"
+	}
+	return x.coqObsCore() + " " + coqInterims(x.s.Interims)
+}
+
+func (x *exch) coqH2Heads() (string, string) {
+	o := x.H2
+	var heads []string
+	for i, h := range o.heads {
+		end := i == len(o.heads)-1 && o.HdrEnd
+		heads = append(heads, fmt.Sprintf("(%s, %s, %s)", coqLit([]byte(h[0].Value)), coqFields(h[1:]), hk.CoqBool(end)))
+	}
+	tr := "None"
+	if o.UseTrailers {
+		tr = "(Some " + coqFields(o.trailerWire) + ")"
+	}
+	return hk.CoqList(heads), tr
 }
 
 func (x *exch) hasBody() bool { return !(x.Method == "HEAD" || !bodyAllowed(x.A.Code)) }
